@@ -272,7 +272,14 @@ def time_gauge_level(ctx, stop_first=False):
         dict(dev="bar", gamma=10.0, cur={"source": 3.0, "drain": -3.0}, B=0.0, c=-0.05, opts=dict(dt_init=1e-3, dt_max=5e-2, adaptive=True, adaptive_window=2, solve_time=0.4, terminal_psi=None)),
         dict(dev="ring", gamma=1.0, cur=None, B=0.6, c=2.0, opts=dict(dt_init=2e-3, dt_max=5e-2, adaptive=True, adaptive_window=4, solve_time=0.5)),
     ]
+    # refused-and-retried steps with a constant large enough that |(mu + c) dt| exceeds pi: the temporal link variable of a
+    # retried step is exp(-i mu dt') of the REDUCED step, whatever branch a complex power would take
+    # (c dt = pi: sites with mu above and below 0 fall on different branches)
+    cfgs.append(dict(dev="bar", gamma=1.0, cur={"source": 3.0, "drain": -3.0}, B=0.3, c=float(np.pi / 0.4), refusals=True,
+                     opts=dict(dt_init=0.4, dt_max=0.4, adaptive=True, adaptive_window=3, solve_time=4.0, max_solve_retries=12, adaptive_time_step_multiplier=0.3)))
     o_upd = TDGLSolver.update
+    import c05
+
     for cfg in cfgs:
         dev = zoo.make_device(cfg["dev"], ctx.rng, max_edge_length=1.0, gamma=cfg["gamma"])
         res = []
@@ -285,7 +292,8 @@ def time_gauge_level(ctx, stop_first=False):
                 os.remove(out)
             TDGLSolver.update = upd
             try:
-                sol = tdgl.solve(dev, runs.options(save_every=5, output_file=out, progress_interval=10**9, **cfg["opts"]), applied_vector_potential=cfg["B"], terminal_currents=cfg["cur"])
+                with c05.ScheduledRefusals(bool(cfg.get("refusals"))):  # every fourth evaluation of the site update is refused -> retried
+                    sol = tdgl.solve(dev, runs.options(save_every=5, output_file=out, progress_interval=10**9, **cfg["opts"]), applied_vector_potential=cfg["B"], terminal_currents=cfg["cur"])
             finally:
                 TDGLSolver.update = o_upd
             res.append((runs.parse_h5(sol.path)[0], np.asarray(sol.dynamics.dt)))
